@@ -11,7 +11,10 @@ import os, sys
 sys.path.insert(0, os.getcwd())
 from tools import vlib
 import json
-groups = json.load(open("checks/harness_groups.json"))
+import glob
+groups = {}
+for g in sorted(glob.glob("harness/*/GROUP")):
+    groups[os.path.basename(os.path.dirname(g))] = open(g).read().strip()
 for crate, group in groups.items():
     ok, d, log = vlib.cargo_build(crate, group)
     print("setup: harness", crate, "ok" if ok else "FAILED")
